@@ -11,8 +11,9 @@ over the real ast).
 import ast
 
 LEVEL = "other"
-UNITS = []
+import contracts.C13 as _C13      # noqa: E402,F401  (CompileCommand.arguments: the arguments form is returned unchanged, else shlex.split(command))
 
+UNITS = ["codebasin:CompileCommand.arguments"]
 
 def extra_obligations(index, tier):
     fi = index.func("codebasin.config:ArgumentParser.parse_args")
